@@ -214,18 +214,25 @@ class C11(Prop):
             for _ in range(3):
                 L.append("qpack dec %d 0000%02x%s" % (BIG, a, hx([rng.randrange(256) for _ in range(rng.randrange(1, 7))])))
         # section prefixes
-        for ric in ([0x00], [0x01], [0x05], [0xfe], [0xff, 0x00], [0xff, 0x80, 0x00], [0xff] + [0xff] * 9 + [0x01], [0xff] + [0x80] * 9 + [0x00], [0xff]):
+        for ric in ([0x00], [0x01], [0x05], [0xfe], [0xff, 0x00], [0xff, 0x80, 0x00], [0xff] + [0xff] * 9 + [0x01], [0xff] + [0x80] * 9 + [0x00], [0xff] + [0x80] * 9 + [0x02], [0xff] + [0x80] * 9 + [0x7e], [0xff]):
             for db in ([0x00], [0x01], [0x7e], [0x7f, 0x00], [0x7f, 0x80, 0x00], [0x80], [0x85], [0xff, 0x00], [0xff] + [0xff] * 8 + [0x7f],
-                       [0xff] + [0xff] * 9 + [0x01], [0x7f] + [0x80] * 9 + [0x00], [0x7f], [0xff], []):
+                       [0xff] + [0xff] * 9 + [0x01], [0x7f] + [0x80] * 9 + [0x00], [0x7f] + [0x80] * 9 + [0x02], [0xff] + [0x80] * 9 + [0x04], [0x7f], [0xff], []):
                 for tail in ([], [0xd1], [0x10]):
                     L.append("qpack dec %d %s" % (BIG, hx(ric + db + tail)))
         # static indices around the end of the table, every length form
-        for i in list(range(55, 70)) + list(range(95, 104)) + [127, 128, 200, 2**14, 2**32, 2**62, 2**63 + 62, 2**63 + 63, 2**64 - 1]:
+        for i in list(range(55, 70)) + list(range(95, 104)) + [127, 128, 200, 2**14, 2**32, 2**62, 2**63 + 62, 2**63 + 63, 2**64 - 1,
+                                                                   2**64 + 63, 2**64 + 17, 2**65 + 1, 3 * 2**64 + 70, 2**69 + 10, 2**70 - 2**64 + 5, 2**70 + 1, 2**77 + 3]:
             for ex in (0, 1, 2, 8, 9, 10):
                 L.append("qpack dec %d %s" % (BIG, hx([0, 0] + e.indexed(i, extra=ex))))
                 w = pint(4, 5, i, ex)
                 L.append("qpack dec %d %s" % (BIG, hx([0, 0] + w + [0x00])))
                 L.append("qpack dec %d %s" % (BIG, hx([0, 0] + w + [0x81, 0x1f])))
+        # string lengths / name indices whose tenth continuation octet carries bits above 2^63
+        for last in (0x02, 0x04, 0x7e, 0x03):
+            L.append("qpack dec %d %s" % (BIG, hx([0, 0, 0x5f, 0x09, 0x7f] + [0x80] * 9 + [last] + [0x61] * 127)))
+            L.append("qpack dec %d %s" % (BIG, hx([0, 0, 0x5f, 0x09, 0x7f, 0x81] + [0x80] * 8 + [last, 0x61, 0x62])))
+            L.append("qpack dec %d %s" % (BIG, hx([0, 0, 0x27] + [0x80] * 9 + [last] + [0x61] * 7 + [0x01, 0x62])))
+            L.append("qpack dec %d %s" % (BIG, hx([0, 0, 0x5f] + [0x80] * 9 + [last, 0x01, 0x62])))
         # grammar-directed mutations of valid encodings
         bases = self._bases(rng, table, e)
         for lines in bases:
